@@ -177,4 +177,73 @@ theorem c18_prefix_exit_hook_witness :
 
 end RecordTime
 
+/-! ### argument and return-value payloads -/
+section ArgBuffer
+open Uft.Gen.ScriptArgs Uft.Script.Args
+
+/-- C18 (e), replay: for every list of argument specs and values that fit them (integers of
+    any size and base, pointers, enums, floats, chars, structs, strings and std::strings of any
+    length), decoding the bytes libmcount's save_to_argbuf lays out — walking them as
+    get_argspec_string does — returns exactly the stored values, in order, whatever follows
+    in the buffer.  Sizes and advances are the expressions of the C sources (Gen/ScriptArgs). -/
+theorem c18_args_decode_roundtrip_replay (sv : List (ASpec × AVal)) (tl : List Nat)
+    (hf : ∀ p ∈ sv, fits p.1 p.2) :
+    decode replayAdv (sv.map (·.1)) (encode sv ++ tl) = sv.map (·.2) :=
+  decode_encode replayAdv good_replay sv tl (fun p hp => ⟨hf p hp, replay_handles_all _⟩)
+
+/-- C18 (e), Python binding: the same for setup_argument_context of utils/script-python.c, for
+    the formats its switch has a case for -/
+theorem c18_args_decode_roundtrip_python (sv : List (ASpec × AVal)) (tl : List Nat)
+    (hf : ∀ p ∈ sv, fits p.1 p.2) (hh : ∀ p ∈ sv, handles pyAdv p.1.fmt = true) :
+    decode pyAdv (sv.map (·.1)) (encode sv ++ tl) = sv.map (·.2) :=
+  decode_encode pyAdv good_python sv tl (fun p hp => ⟨hf p hp, hh p hp⟩)
+
+/-- C18 (e), Lua binding (utils/script-luajit.c) -/
+theorem c18_args_decode_roundtrip_lua (sv : List (ASpec × AVal)) (tl : List Nat)
+    (hf : ∀ p ∈ sv, fits p.1 p.2) (hh : ∀ p ∈ sv, handles luaAdv p.1.fmt = true) :
+    decode luaAdv (sv.map (·.1)) (encode sv ++ tl) = sv.map (·.2) :=
+  decode_encode luaAdv good_lua sv tl (fun p hp => ⟨hf p hp, hh p hp⟩)
+
+/-- so the script bindings see the values replay prints, element by element -/
+theorem c18_args_readers_agree (sv : List (ASpec × AVal)) (tl : List Nat)
+    (hf : ∀ p ∈ sv, fits p.1 p.2)
+    (hp : ∀ p ∈ sv, handles pyAdv p.1.fmt = true) (hl : ∀ p ∈ sv, handles luaAdv p.1.fmt = true) :
+    decode pyAdv (sv.map (·.1)) (encode sv ++ tl) = decode replayAdv (sv.map (·.1)) (encode sv ++ tl) ∧
+    decode luaAdv (sv.map (·.1)) (encode sv ++ tl) = decode replayAdv (sv.map (·.1)) (encode sv ++ tl) := by
+  rw [c18_args_decode_roundtrip_python sv tl hf hp, c18_args_decode_roundtrip_lua sv tl hf hl,
+    c18_args_decode_roundtrip_replay sv tl hf]
+  exact ⟨rfl, rfl⟩
+
+/-- `greet("ab", 55, 'q')`: a string of length 2 (mod 4) followed by a 4-byte integer and a char -/
+def greetArgs : List (ASpec × AVal) :=
+  [(⟨.str, 8⟩, .str [97, 98]), (⟨.sint, 4⟩, .fixed [55, 0, 0, 0]), (⟨.chr, 1⟩, .fixed [113])]
+
+/-- non-vacuity: the call fits its specs, both bindings handle it, and it decodes to itself -/
+example :
+    (∀ p ∈ greetArgs, fits p.1 p.2) ∧ (∀ p ∈ greetArgs, handles pyAdv p.1.fmt = true) ∧
+    (∀ p ∈ greetArgs, handles luaAdv p.1.fmt = true) ∧
+    encode greetArgs = [2, 0, 97, 98, 55, 0, 0, 0, 113, 0, 0, 0] ∧
+    decode pyAdv (greetArgs.map (·.1)) (encode greetArgs) = greetArgs.map (·.2) := by
+  refine ⟨?_, by decide, by decide, by decide, by decide⟩
+  intro p hp
+  simp only [greetArgs, List.mem_cons, List.mem_nil_iff, or_false] at hp
+  rcases hp with rfl | rfl | rfl <;> simp [fits, isStr]
+
+/-- a binding whose switch has no case for /o (octal) arguments: the python and luajit bindings
+    before the repair of finding F-C18-OCT -/
+def noOctAdv : Fmt → Nat → Nat → Option Nat
+  | .oct, _, _ => none
+  | f, size, slen => replayAdv f size slen
+
+/-- F-C18-OCT witness: `f(arg1/o32 = 8, arg2/i32 = 7)` — the octal argument is skipped without
+    advancing, so one value is missing and the second argument is read from the first one's bytes;
+    replay returns both -/
+theorem c18_prefix_oct_witness :
+    let sv : List (ASpec × AVal) := [(⟨.oct, 4⟩, .fixed [8, 0, 0, 0]), (⟨.sint, 4⟩, .fixed [7, 0, 0, 0])]
+    decode noOctAdv (sv.map (·.1)) (encode sv) = [.fixed [8, 0, 0, 0]] ∧
+    decode replayAdv (sv.map (·.1)) (encode sv) = sv.map (·.2) := by
+  decide
+
+end ArgBuffer
+
 end Uft.C18
